@@ -45,6 +45,46 @@ fn strip_rules(model: &str) -> String {
 
 /// The proc macro's own early check of struct fields ("struct fields FFI-safe", "std Option of non-pointers never in
 /// struct fields"): whatever other attributes the struct carries, a field that is not FFI-safe stops the expansion.
+
+/// "Every lifetime bound implied by a used type is spelled out on the method": the bounds a type's definition
+/// declares (`Span<'lo, 'hi: 'lo>`) and the one a reference to a borrowing type implies (`&'a Token<'b>` needs
+/// `'b: 'a`) — also when the type is written `Self`, in parameters and inside `Option` / `Result` returns.  The
+/// generated modules have no lifetime parameters on types, so these shapes are written out; each is a single
+/// method whose verdict follows from the rule, with its spelled-out twin as the control.
+fn implied_bound_probe(rep: &mut Report) {
+    let head = "#[diplomat::bridge]\nmod ffi {\n    #[diplomat::opaque]\n    pub struct Arena;\n    #[diplomat::opaque]\n    pub struct Token<'b>(&'b str);\n    #[diplomat::opaque]\n    pub struct Span<'lo, 'hi: 'lo>(&'lo str, &'hi str);\n    pub struct Pair<'p, 'q: 'p> { pub a: &'p Arena, pub b: &'q Arena }\n";
+    // (name, impl header, method, expected rejection context)
+    let cases: [(&str, &str, &str, Option<&str>); 14] = [
+        ("named-ref-auto-bound", "impl<'b> Token<'b>", "pub fn same<'a>(&self, other: &'a Token<'b>) -> bool { true }", None),
+        ("self-ref-param", "impl<'b> Token<'b>", "pub fn same<'a>(&self, other: &'a Self) -> bool { true }", Some("Token::same")),
+        ("self-ref-param-spelled", "impl<'b> Token<'b>", "pub fn same<'a>(&self, other: &'a Self) -> bool where 'b: 'a { true }", None),
+        ("self-ref-option-return", "impl<'b> Token<'b>", "pub fn lookup<'a>(arena: &'a Arena, index: usize) -> Option<&'a Self> { None }", Some("Token::lookup")),
+        ("self-ref-option-return-spelled", "impl<'b> Token<'b>", "pub fn lookup<'a>(arena: &'a Arena, index: usize) -> Option<&'a Self> where 'b: 'a { None }", None),
+        ("self-ref-result-return", "impl<'b> Token<'b>", "pub fn find<'a>(arena: &'a Arena) -> Result<&'a Self, ()> { Err(()) }", Some("Token::find")),
+        ("self-ref-result-err", "impl<'b> Token<'b>", "pub fn other<'a>(arena: &'a Arena) -> Result<(), &'a Self> { Ok(()) }", Some("Token::other")),
+        ("def-bound-missing", "impl Arena", "pub fn widen<'x, 'y>(&self, span: &Span<'x, 'y>) -> u32 { 0 }", Some("Arena::widen")),
+        ("def-bound-spelled", "impl Arena", "pub fn widen<'x, 'y: 'x>(&self, span: &Span<'x, 'y>) -> u32 { 0 }", None),
+        ("def-bound-missing-in-return", "impl Arena", "pub fn span<'x, 'y>(&self, a: &'x Arena, b: &'y Arena) -> Box<Span<'x, 'y>> { unimplemented!() }", Some("Arena::span")),
+        ("def-bound-spelled-in-return", "impl Arena", "pub fn span<'x, 'y: 'x>(&self, a: &'x Arena, b: &'y Arena) -> Box<Span<'x, 'y>> { unimplemented!() }", None),
+        ("struct-def-bound-missing", "impl Arena", "pub fn pair<'x, 'y>(&self, p: Pair<'x, 'y>) -> u8 { 0 }", Some("Arena::pair")),
+        ("struct-def-bound-spelled", "impl Arena", "pub fn pair<'x, 'y: 'x>(&self, p: Pair<'x, 'y>) -> u8 { 0 }", None),
+        ("same-lifetime-twice", "impl Arena", "pub fn both<'x>(&self, span: &Span<'x, 'x>) -> u32 { 0 }", None),
+    ];
+    for (name, imp, method, expect) in cases {
+        let src = format!("{head}    {imp} {{\n        {method}\n    }}\n}}\n");
+        for target in ["c", "js", "dart", "kotlin"] {
+            let o = tool::run_backend(&src, target);
+            rep.oracle_runs += 1;
+            rep.count("probe:implied-bounds");
+            let ctxs: Vec<&str> = o.lowering_errors.iter().map(|(c, _)| c.as_str()).collect();
+            let ok = match expect { None => ctxs.is_empty(), Some(c) => ctxs.contains(&c) };
+            if !ok || o.panic.is_some() || o.parse_error.is_some() {
+                rep.oracle_fail(&format!("(c05 probe implied-bound {name} {target})"), if expect.is_some() { "a method that leaves out a lifetime bound implied by a type it uses is accepted" } else { "a method that spells out every implied lifetime bound is rejected" }, json!({"backend": target, "expected_rejection": expect, "lowering_errors": o.lowering_errors, "panic": o.panic, "source": src}));
+            }
+        }
+    }
+}
+
 fn macro_struct_gate_probe(rep: &mut Report) {
     let wrap = |attrs: &str, field: &str| format!("#[diplomat::bridge]\nmod ffi {{\n    use diplomat_runtime::DiplomatOption;\n    {attrs}\n    pub struct Rec {{ pub a: u8, pub f: {field} }}\n    #[diplomat::opaque]\n    pub struct Op;\n    impl Op {{ pub fn get(&self) -> u8 {{ 0 }} }}\n}}\n");
     // (attributes on the struct, field type, must the macro refuse it)
@@ -80,6 +120,7 @@ pub fn main(args: &[String]) {
 
     let mut rep = Report::new("C05");
     macro_struct_gate_probe(&mut rep);
+    implied_bound_probe(&mut rep);
     let thorough = a.tier == "thorough";
     let mut rng = Rng::new(a.seed);
     let n_valid = if a.n > 0 { a.n } else if thorough { 1200 } else { 120 };
